@@ -96,13 +96,25 @@ class SymH:
             return self._record(self.ctx.fail(label, detail))
         ok = self.ctx.check(_bt(cond), label, detail)
         if ok is False and robust is not None:
-            self.ctx.solver.set("timeout", 2000)
-            try:
-                r = self.ctx._check(_bt(robust))
-            finally:
-                self.ctx.solver.set("timeout", self.ctx.timeout_ms)
-            if r == z3.sat:
-                inputs = self.ctx.model_inputs(self.ctx.solver.model())
+            viol = z3.And(z3.Not(_bt(cond)), _bt(robust))  # still a violation, and robust
+            model = None
+            for eps in ("1", "1/100"):
+                try:
+                    model = C.interior_model(self.ctx.assertions, eps, extra=viol, timeout=2000)
+                except z3.Z3Exception:
+                    model = None
+                if model is not None:
+                    break
+            if model is None:
+                self.ctx.solver.set("timeout", 2000)
+                try:
+                    r = self.ctx._check(viol)
+                finally:
+                    self.ctx.solver.set("timeout", self.ctx.timeout_ms)
+                if r == z3.sat:
+                    model = self.ctx.solver.model()
+            if model is not None:
+                inputs = self.ctx.model_inputs(model)
                 self.ctx.failures[-1].inputs = {k: str(v) for k, v in inputs.items()}
         return self._record(ok)
 
